@@ -69,6 +69,33 @@ pub fn judge_with(case: &Case, st: &State, txn: &Txn, n_hist: usize, prec: &Prec
                 return Outcome::violation(format!("error-does-not-name-the-transaction{}", shape), format!("transaction occupies lines {}..{} of {}; error points at {}:{}\n{}", case.txn_first, case.txn_last, oka::ROOT, path, line, e.rendered));
             }
             let only_assert = rs.iter().all(|r| matches!(r, Reject::AssertFalse(..)));
+            // postings are applied in file order: a false assertion that stands BEFORE every other fault of the
+            // transaction (the second amount-less posting, a `= 0` on a multi-commodity account; the balance check of the whole
+            // transaction comes last) is the fault that is reported
+            let first_assert = rs.iter().filter_map(|r| if let Reject::AssertFalse(i, _) = r { Some(*i) } else { None }).min();
+            let first_other = rs
+                .iter()
+                .filter_map(|r| match r {
+                    Reject::TwoUnconstrained(_, j) => Some(*j),
+                    Reject::AssignZeroMulti(i) => Some(*i),
+                    Reject::Unbalanced(..) => Some(usize::MAX),
+                    Reject::AssertFalse(..) => None,
+                })
+                .min();
+            let assert_first = match (first_assert, first_other) {
+                (Some(a), Some(o)) => a < o,
+                _ => false,
+            };
+            if assert_first && !only_assert {
+                if e.variant != "BalanceAssertionFailure" {
+                    return Outcome::violation(format!("false-assertion-before-another-fault-reported-as/{}{}", e.variant, shape), format!("the false assertion on posting {} stands before the other fault(s) of the transaction ({}), yet the error is:\n{}", first_assert.unwrap(), rs.iter().map(describe).collect::<Vec<_>>().join("; "), e.rendered));
+                }
+                let want_line = case.posting_lines[first_assert.unwrap()];
+                if line != want_line {
+                    return Outcome::violation(format!("assertion-error-points-at-wrong-posting{}", shape), format!("first false assertion is on line {}; error points at line {}\n{}", want_line, line, e.rendered));
+                }
+                return Outcome::pass("rejected/false-assertion-first-of-several-faults/located");
+            }
             if only_assert {
                 if e.variant != "BalanceAssertionFailure" {
                     return Outcome::violation(format!("false-assertion-reported-as/{}{}", e.variant, shape), e.rendered.clone());
